@@ -59,15 +59,26 @@ def has_ties(cfg, pred, ref):
 PENDING = []
 
 
-def one_case(ctx, cfg, pred, ref, tag):
-    """queue a case; flush() evaluates implementation and (batched) model"""
-    PENDING.append((cfg, pred, ref, tag))
+def one_case(ctx, cfg, pred, ref, tag, chain=None):
+    """queue a case; flush() evaluates implementation and (batched) model.  Cases with the same [chain] id are evaluated, in
+    order, on ONE evaluator object (the documented procedure is a function of the input alone, also on the n-th use)."""
+    PENDING.append((cfg, pred, ref, tag, chain))
 
 
 def flush(ctx):
     items, metas = [], []
-    for cfg, pred, ref, tag in PENDING:
-        out = impl.evaluate(impl.make_evaluator(cfg), pred.copy(), ref.copy())
+    chains = {}
+    for cfg, pred, ref, tag, chain in PENDING:
+        history = []
+        if chain is None:
+            ev = impl.make_evaluator(cfg)
+        else:
+            if chain not in chains:
+                chains[chain] = (impl.make_evaluator(cfg), [])
+            ev, history = chains[chain]
+        out = impl.evaluate(ev, pred.copy(), ref.copy())
+        hist_now = list(history)
+        history.append({"pred": pred, "ref": ref})
         try:
             ip, ir = (pred, ref) if cfg["input"] != "semantic" else pipeline.approximate(pred, ref, cfg.get("backend"))
             ties = has_ties(cfg, ip, ir)
@@ -78,15 +89,17 @@ def flush(ctx):
                 ctx.count({"cfg": cfg, "rejected": out[1]}, False)
             continue
         items.append((cfg, ip, ir))
-        metas.append((cfg, pred, ref, tag, out, ip, ir, ties))
+        metas.append((cfg, pred, ref, tag, out, ip, ir, ties, hist_now))
     PENDING.clear()
     mrs = pipeline.model_results(items)
-    for (cfg, pred, ref, tag, out, ip, ir, ties), mr in zip(metas, mrs):
-        judge(ctx, cfg, pred, ref, tag, out, ip, ir, ties, mr)
+    for (cfg, pred, ref, tag, out, ip, ir, ties, hist), mr in zip(metas, mrs):
+        judge(ctx, cfg, pred, ref, tag, out, ip, ir, ties, mr, hist)
 
 
-def judge(ctx, cfg, pred, ref, tag, out, ip, ir, ties, mr):
+def judge(ctx, cfg, pred, ref, tag, out, ip, ir, ties, mr, hist=()):
     case = {"cfg": cfg, "pred": pred, "ref": ref}
+    if hist:
+        case["history"] = list(hist)          # inputs evaluated before on the same evaluator object
     ncand = len({(int(a), int(b)) for a, b in zip(ir.ravel().tolist(), ip.ravel().tolist()) if a and b})
     ctx.count({"cfg": cfg, "pred": pred.tolist(), "ref": ref.tolist()}, ncand >= 1)
     ctx.bump(f"{tag}/{cfg['input']}/{cfg.get('mmetric', '-')}/{pred.ndim}d")
@@ -143,6 +156,26 @@ def run(ctx):
             p, r = np.where(p != 0, 1 + (p % k), 0).astype(rng.choice(["uint8", "int16", "int64"])), np.where(r != 0, 1 + (r % k), 0)
             r = r.astype(p.dtype)
         one_case(ctx, gen_cfg(rng, it), p, r, "random")
+    # the same evaluator object used for several inputs of different dimensionality / dtype / emptiness
+    for ch in range(ctx.scale(40, 400)):
+        it = rng.choice(["matched", "unmatched", "semantic", "semantic"])
+        cfg = gen_cfg(rng, it)
+        if it == "semantic" and rng.random() < 0.7:
+            cfg["backend"] = None
+        dims = [1, 2, 3]
+        rng.shuffle(dims)
+        for nd in dims[:rng.choice([2, 3])]:
+            p, r = impl.rand_pair(rng, dims=(nd,), max_side=5 if nd == 3 else 7, max_inst=3)
+            if rng.random() < 0.1:
+                p = np.zeros_like(p)
+            if it == "semantic":
+                # speckled two-class maps: diagonal contacts and touching classes, where the backends differ
+                r = np.array([rng.choice([0, 0, 0, 1, 1, 2]) for _ in range(r.size)], "uint8").reshape(r.shape)
+                p = r.copy()
+                fl = p.reshape(-1)
+                for _ in range(rng.randint(0, 3)):
+                    fl[rng.randrange(fl.size)] = rng.choice([0, 1, 2])
+            one_case(ctx, cfg, p, r, "reused", chain=ch)
     flush(ctx)
     tr = pipeline.TRIPLES[:: max(1, len(pipeline.TRIPLES) // 50)][:60]
     n, bad = coq_crosscheck("C01", tr)
@@ -157,10 +190,16 @@ def replay(path):
     d = json.loads(open(path).read())
     pred, ref = common.arr_from_json(d["pred"]), common.arr_from_json(d["ref"])
     ctx = common.Ctx("C01", "quick", 0)
-    one_case(ctx, d["cfg"], pred, ref, "replay")
+    for h in d.get("history", []):
+        one_case(ctx, d["cfg"], common.arr_from_json(h["pred"]), common.arr_from_json(h["ref"]), "replay", chain=0)
+    one_case(ctx, d["cfg"], pred, ref, "replay", chain=0)
     flush(ctx)
-    out = impl.evaluate(impl.make_evaluator(d["cfg"]), pred, ref)
-    print("implementation:", out if isinstance(out, tuple) else common.jsonable(impl.canon_result(out["ungrouped"][0])))
+    ev = impl.make_evaluator(d["cfg"])
+    for h in d.get("history", []):
+        impl.evaluate(ev, common.arr_from_json(h["pred"]), common.arr_from_json(h["ref"]))
+    out = impl.evaluate(ev, pred, ref)
+    print("implementation" + (" (after %d earlier evaluations on the same evaluator)" % len(d["history"]) if d.get("history") else "") + ":",
+          out if isinstance(out, tuple) else common.jsonable(impl.canon_result(out["ungrouped"][0])))
     for w, r in ctx.violations:
         print("VIOLATION:", w)
     return 1 if ctx.violations else 0
